@@ -9,4 +9,5 @@ import (
 	_ "verifharness/props/c06"
 	_ "verifharness/props/c08"
 	_ "verifharness/props/c09"
+	_ "verifharness/props/c12"
 )
